@@ -290,6 +290,7 @@ def _run(sc, detail_rhs=False, keep_system=False):
             elif name == "reset":
                 lg.emit("Api", op="reset", k=k)
                 system.reset()
+                lg.const_marks = [(0, c_) for (_, c_) in lg.const_marks[-1:]]      # the pieces are gone; the constants assigned last stay
                 lg.emit("ApiRet", op="reset", k=k, err=None, full=_full_state(system, y0_copy, y0))
             elif name == "set":
                 lg.emit("Api", op="set", k=k, what=op["what"])
@@ -310,6 +311,10 @@ def _run(sc, detail_rhs=False, keep_system=False):
                     sol_ = system.sol
                     lg.const_marks.append((len(sol_.y_interpolants) if sol_ is not None else 0, dict(v)))
                     system.constants = dict(v)
+                elif w == "constants-inplace":       # the dictionary the system handed out is edited in place: no setter runs
+                    sol_ = system.sol
+                    lg.const_marks.append((len(sol_.y_interpolants) if sol_ is not None else 0, dict(system.constants, **v)))
+                    system.constants.update(v)
                 if w == "method":
                     cur_method[0] = v
                 lg.emit("ApiRet", op="set", k=k, err=None, full=_full_state(system, y0_copy, y0))
@@ -735,6 +740,10 @@ def run_plain(sc):
                     sol_ = system.sol
                     lg.const_marks.append((len(sol_.y_interpolants) if sol_ is not None else 0, dict(v)))
                     system.constants = dict(v)
+                elif w == "constants-inplace":       # the dictionary the system handed out is edited in place: no setter runs
+                    sol_ = system.sol
+                    lg.const_marks.append((len(sol_.y_interpolants) if sol_ is not None else 0, dict(system.constants, **v)))
+                    system.constants.update(v)
         except traced.BudgetExceeded as e:
             err = "BudgetExceeded"
             break
